@@ -367,9 +367,28 @@ def writer_tags(p):
                 elif isinstance(e, ast.Constant) and isinstance(e.value, bytes):
                     c = e.value
                 elif isinstance(e, ast.Call) and isinstance(e.func, ast.Name) and e.func.id == "int2byte" and e.args:
-                    a = e.args[0]
-                    if isinstance(a, ast.BinOp) and isinstance(a.op, (ast.Add, ast.BitOr)) and isinstance(a.left, ast.Constant):
-                        tags.setdefault(f.qual, set()).add("0x%02X+tag" % a.left.value)
+                    # int2byte(<constants combined with | or +> (| or +) <a parameter>): constant part + tag number
+                    from sa import pat as _pat
+                    D_ = _pat.defs_of(f.node)
+
+                    def parts(a):
+                        if isinstance(a, ast.Name) and a.id in D_:
+                            return parts(D_[a.id])
+                        if isinstance(a, ast.Name) and isinstance(m.globals.get(a.id), ast.Constant):
+                            return m.globals[a.id].value, 0
+                        if isinstance(a, ast.Constant) and isinstance(a.value, int):
+                            return a.value, 0
+                        if isinstance(a, ast.Name) and a.id in f.params:
+                            return 0, 1
+                        if isinstance(a, ast.BinOp) and isinstance(a.op, (ast.Add, ast.BitOr)):
+                            l_, r_ = parts(a.left), parts(a.right)
+                            if l_ is None or r_ is None:
+                                return None
+                            return (l_[0] | r_[0]) if isinstance(a.op, ast.BitOr) else (l_[0] + r_[0]), l_[1] + r_[1]
+                        return None
+                    pr = parts(e.args[0])
+                    if pr is not None and pr[1] == 1:
+                        tags.setdefault(f.qual, set()).add("0x%02X+tag" % pr[0])
                 if c is not None and len(c) == 1:
                     tags.setdefault(f.qual, set()).add(c[0])
     return tags
